@@ -209,6 +209,34 @@ def apl_rr(items_wire, cls=1):
     rd = b''.join(items_wire)
     return b'\x01a\x00' + b'\x00\x2a' + cls.to_bytes(2, 'big') + b'\0\0\0\x05' + len(rd).to_bytes(2, 'big') + rd
 
+def neighbour_cases(fam, size, tier, rng):
+    """APL records with several items and OPT records with several options: a value must not depend on its neighbours"""
+    cs = []
+    # several items in one record: what an item decodes to must not depend on its neighbours (shorter after longer,
+    # other family after this one, negated after plain), in both orders
+    forms = []
+    for a, pfx in ((bytes([10, 1, 2, 3] * (size // 4)), 8 * size), (bytes([0xac, 0x10] + [0] * (size - 2)), 12), (bytes([0xc0] + [0] * (size - 1)), 8 * size),
+                   (bytes(size), 0), (bytes([0xff] * size), 8 * size), (bytes([0] * (size - 1) + [1]), 8 * size), (bytes([0x80] + [0] * (size - 1)), 1)):
+        v = a.rstrip(b'\0')
+        for alen in sorted(set([len(v), size, min(len(v) + 1, size)])):
+            for neg in (0, 0x80):
+                forms.append(fam.to_bytes(2, 'big') + bytes([pfx, neg | alen]) + a[:alen])
+    other = (2 if fam == 1 else 1)
+    forms.append(other.to_bytes(2, 'big') + bytes([0, 0]))
+    forms.append(other.to_bytes(2, 'big') + bytes([8, 1, 0x7f]))
+    for x in forms:
+        for y in forms:
+            cs.append(Case('dec.rr %s' % hx(apl_rr([x, y])), 'apl-pair'))
+    for _ in range(sz(tier, 300, 3000)):
+        cs.append(Case('dec.rr %s' % hx(apl_rr([rng.choice(forms) for _ in range(rng.randint(3, 6))])), 'apl-multi'))
+    # two client-subnet options / cookie between them in one OPT record
+    eforms = [fam.to_bytes(2, 'big') + bytes([p, sc]) + a for p, sc, a in ((8 * size, 0, bytes([10, 1, 2, 3] * (size // 4))), (12, 0, bytes([0xac, 0x10])), (0, 0, b''), (8, 8, b'\x7f'))]
+    for x in eforms:
+        for y in eforms:
+            cs.append(Case('dec.rr %s' % hx(opt_rr([opt_option(8, x), opt_option(8, y)])), 'ecs-pair'))
+            cs.append(Case('dec.rr %s' % hx(opt_rr([opt_option(8, x), opt_option(10, b'\1' * 8), opt_option(8, y)])), 'ecs-pair'))
+    return cs
+
 def addr_guard_cases():
     """address length 0..=family+2, prefix around the family size, cookie lengths 0..=64"""
     cs = []
@@ -338,6 +366,8 @@ def C03(tier, rng):
     for b in corpus_vectors():
         cs += dec_all_entries(b, 'corpus')
     cs += single_rr_cases(rng, sz(tier, 2000, 20000))
+    for fam, size in ((1, 4), (2, 16)):
+        cs += neighbour_cases(fam, size, tier, rng)
     return cs
 
 def raw_rr(ty, cls, rdata, owner=b'\x01a\x00', ttl=7):
